@@ -226,6 +226,8 @@ func (s *SimSink) Kill(complete bool) {
 		}
 	}
 	s.Dead = true
+	s.inFlight = 0 // the call that was in flight died with the process
+	s.cur = nil
 }
 
 func clip(b []byte) string {
